@@ -19,6 +19,8 @@ def main():
     if a.replay:
         return mod.replay(a.replay) if hasattr(mod, 'replay') else generic_replay(mod, a.replay)
     try:
+        if a.only or os.environ.get('PYVC_MUTATE'):
+            os.environ['PYVC_NO_EVIDENCE'] = '1'      # a filtered or source-rewritten run is a debugging aid, not evidence
         rc = mod.run(tier=a.tier, seed=seed, only=a.only)
         if rc == 0 and a.tier == 'thorough' and not a.only and not os.environ.get('PYVC_MUTATE'):
             rc = mutant_gate(a.pid)
